@@ -425,91 +425,210 @@ def run(eng: Engine, ck: Check):
                   f'hand-written sequence {seq}', construct=f'{name}.{mn} agrees with table')
 
     # ---- R-C01-DRIVER: writer-side and reader-side predicates agree
+    # Both field loops are executed abstractly, once per combination of (optional, if_true/if_false, controlling value, value present):
+    # does the iteration reach the codec call (`<type>.deserialize(` / `.serialize_into(`) or is the field skipped?  Calls of the class's
+    # own helpers are followed, so the verdict does not depend on how the decision is split over helper functions.
     pd = repo.cls('ProtocolDataclass', PRIM)
-    wr = pd.methods['_get_value_for_field']
-    rd = pd.methods['_field_needs_deserialization']
-    ck.visited(wr)
-    ck.visited(rd)
+    wloop_fn, rloop_fn = pd.methods['serialize_into'], pd.methods['deserialize']
+    ck.visited(wloop_fn)
+    ck.visited(rloop_fn)
+    VAL, OBJ = 'VAL', 'OBJ'
+
+    class Reach(Exception):
+        pass
+
+    class Driver:
+        def __init__(self, reader: bool, opt, cond, ctrl, present):
+            self.reader, self.opt, self.cond, self.ctrl, self.present = reader, opt, cond, ctrl, present
+            self.depth = 0
+            self.followed: set[str] = set()
+
+        def is_target(self, x: ast.AST) -> bool:
+            if not (isinstance(x, ast.Call) and isinstance(x.func, ast.Attribute)):
+                return False
+            if x.func.attr not in (('deserialize',) if self.reader else ('serialize_into', 'serialize')):
+                return False
+            r = unparse(x.func.value)
+            return r not in ('self', 'cls', 'super()') and not r.startswith(('self.', 'cls.'))
+
+        def has_target(self, node) -> bool:
+            return any(self.is_target(x) for x in ast.walk(node))
+
+        def truthy(self, v, e) -> bool:
+            if v is OBJ or v is VAL:
+                raise AnalysisError(f'R-C01-DRIVER: the truth of `{unparse(e)}` is outside the decision-table fragment')
+            return bool(v)
+
+        def meta_key(self, e: ast.AST):
+            return {'optional': self.opt, 'if_true': self.cond == 'if_true', 'if_false': self.cond == 'if_false'}.get(const(e))
+
+        def ev(self, e: ast.AST, env: dict):
+            if isinstance(e, ast.Constant):
+                return e.value
+            if isinstance(e, ast.Name):
+                return env.get(e.id, OBJ)
+            if isinstance(e, ast.UnaryOp) and isinstance(e.op, ast.Not):
+                return not self.truthy(self.ev(e.operand, env), e.operand)
+            if isinstance(e, ast.BoolOp):
+                v = None
+                for x in e.values:
+                    v = self.ev(x, env)
+                    t = self.truthy(v, x)
+                    if t != isinstance(e.op, ast.And):
+                        return v
+                return v
+            if isinstance(e, ast.IfExp):
+                return self.ev(e.body if self.truthy(self.ev(e.test, env), e.test) else e.orelse, env)
+            if isinstance(e, ast.NamedExpr):
+                env[e.target.id] = self.ev(e.value, env)
+                return env[e.target.id]
+            if isinstance(e, ast.Compare) and len(e.ops) == 1:
+                op, l, r = e.ops[0], e.left, e.comparators[0]
+                if isinstance(op, (ast.In, ast.NotIn)) and mentions_attr(r, 'metadata') and self.meta_key(l) is not None:
+                    return self.meta_key(l) == isinstance(op, ast.In)
+                if isinstance(op, (ast.Is, ast.IsNot, ast.Eq, ast.NotEq)) and (is_none_const(r) or is_none_const(l)):
+                    v = self.ev(l if is_none_const(r) else r, env)
+                    if v is OBJ:
+                        raise AnalysisError(f'R-C01-DRIVER: `{unparse(e)}` tests a value the fragment does not track')
+                    return (v is None) == isinstance(op, (ast.Is, ast.Eq))
+                if isinstance(op, (ast.Lt, ast.LtE, ast.Gt, ast.GtE)):
+                    def is_len(x):
+                        return isinstance(x, ast.Call) and call_name(x) == 'len' and len(x.args) == 1
+                    if is_len(r) and not is_len(l):        # pos < len(message): bytes left;  pos >= len(message): none left
+                        return self.present if isinstance(op, ast.Lt) else (not self.present) if isinstance(op, ast.GtE) else self._bad(e)
+                    if is_len(l) and not is_len(r):        # len(message) > pos;  len(message) <= pos
+                        return self.present if isinstance(op, ast.Gt) else (not self.present) if isinstance(op, ast.LtE) else self._bad(e)
+                return OBJ
+            if isinstance(e, ast.Subscript) and mentions_attr(e.slice, 'metadata') and any(
+                    isinstance(c_, ast.Constant) and c_.value in ('if_true', 'if_false') for c_ in ast.walk(e.slice)):
+                return self.ctrl            # field_map[f.metadata['if_true']]: the controlling field's parsed value
+            if isinstance(e, ast.Call):
+                nm = call_name(e)
+                if nm == 'bool' and len(e.args) == 1:
+                    return self.truthy(self.ev(e.args[0], env), e.args[0])
+                if nm == 'getattr' and len(e.args) >= 2:
+                    if mentions_attr(e.args[1], 'metadata'):
+                        return self.ctrl    # the controlling field's value on the object
+                    if isinstance(e.args[1], ast.Attribute) and e.args[1].attr == 'name':
+                        return VAL if self.present else None      # the field's own value
+                if isinstance(e.func, ast.Attribute) and unparse(e.func.value) in ('self', 'cls', 'self.__class__', 'type(self)', 'ProtocolDataclass') and nm in pd.methods:
+                    return self.call(pd.methods[nm], e, env)
+                return OBJ
+            if isinstance(e, ast.Await):
+                return self.ev(e.value, env)
+            return OBJ
+
+        def _bad(self, e):
+            raise AnalysisError(f'R-C01-DRIVER: comparison `{unparse(e)}` is outside the decision-table fragment')
+
+        def call(self, m: FuncInfo, e: ast.Call, env: dict):
+            self.depth += 1
+            if self.depth > 4:
+                raise AnalysisError('R-C01-DRIVER: helper recursion')
+            self.followed.add(m.qualname)
+            ck.visited(m)
+            a = m.node.args
+            params = [x.arg for x in a.posonlyargs + a.args]
+            decs = [unparse(d_) for d_ in m.node.decorator_list]
+            if 'staticmethod' not in decs:
+                params = params[1:]
+            local = {}
+            for p_, v_ in zip(params, e.args):
+                local[p_] = self.ev(v_, env)
+            for k_ in e.keywords:
+                if k_.arg:
+                    local[k_.arg] = self.ev(k_.value, env)
+            r = self.block(m.node.body, local)
+            self.depth -= 1
+            if r is not None and r[0] == 'return':
+                return r[1]
+            return None
+
+        def block(self, stmts, env):
+            """-> None (fell through) | ('return', v) | ('continue',) | ('break',);  raises Reach at the codec call."""
+            for st in stmts:
+                if isinstance(st, ast.Expr) and isinstance(st.value, ast.Constant):
+                    continue
+                if isinstance(st, (ast.Assign, ast.AnnAssign, ast.Expr, ast.AugAssign)):
+                    if self.has_target(st):
+                        raise Reach()
+                    if isinstance(st, ast.Assign) and len(st.targets) == 1 and isinstance(st.targets[0], ast.Name):
+                        env[st.targets[0].id] = self.ev(st.value, env)
+                    elif isinstance(st, ast.AnnAssign) and isinstance(st.target, ast.Name) and st.value is not None:
+                        env[st.target.id] = self.ev(st.value, env)
+                    elif isinstance(st, ast.Expr):
+                        self.ev(st.value, env)
+                    else:
+                        for t_ in ast.walk(st):
+                            if isinstance(t_, ast.Name) and isinstance(t_.ctx, ast.Store):
+                                env[t_.id] = OBJ
+                    continue
+                if isinstance(st, ast.If):
+                    try:
+                        t = self.truthy(self.ev(st.test, env), st.test)
+                    except AnalysisError:
+                        # an undecidable test (the kind of type): fine if every branch reaches the codec call
+                        def all_reach(s):
+                            if not s.orelse:
+                                return False
+                            return all(self.has_target(ast.Module(b_, [])) and (not (len(b_) == 1 and isinstance(b_[0], ast.If)) or all_reach(b_[0])) for b_ in (s.body, s.orelse))
+                        if all_reach(st):
+                            raise Reach()
+                        raise
+                    r = self.block(st.body if t else st.orelse, env)
+                    if r is not None:
+                        return r
+                    continue
+                if isinstance(st, ast.Try):
+                    r = self.block(st.body, env)          # the handlers turn a missing table entry into an error: not a skip
+                    if r is None and st.orelse:
+                        r = self.block(st.orelse, env)
+                    if r is not None:
+                        return r
+                    if st.finalbody:
+                        r = self.block(st.finalbody, env)
+                        if r is not None:
+                            return r
+                    continue
+                if isinstance(st, ast.Return):
+                    return ('return', self.ev(st.value, env) if st.value is not None else None)
+                if isinstance(st, ast.Continue):
+                    return ('continue',)
+                if isinstance(st, ast.Break):
+                    return ('break',)
+                if isinstance(st, ast.Pass):
+                    continue
+                if isinstance(st, ast.Raise):
+                    return ('raise',)
+                raise AnalysisError(f'R-C01-DRIVER: statement `{unparse(st)[:50]}` not understood')
+            return None
+
+    def field_loop(fn: FuncInfo):
+        loops = [n for n in walk_local(fn.node) if isinstance(n, ast.For) and mentions_attr(n.iter, '_CACHED_FIELDS')]
+        if len(loops) != 1:
+            raise AnalysisError(f'R-C01-DRIVER: {fn.qualname} has {len(loops)} loops over _CACHED_FIELDS (expected 1)')
+        return loops[0]
 
     def decision(fn: FuncInfo, reader: bool):
-        """Abstractly evaluate the if-chain for every combination of metadata keys / values."""
+        loop = field_loop(fn)
         rows = {}
         for opt in (False, True):
             for cond in (None, 'if_true', 'if_false'):
                 for ctrl in (False, True):
                     for present in (False, True):     # value is not None / bytes left
-                        rows[(opt, cond, ctrl, present)] = abstract_run(fn, reader, opt, cond, ctrl, present)
+                        d_ = Driver(reader, opt, cond, ctrl, present)
+                        try:
+                            r = d_.block(loop.body, {})
+                            if r is None:
+                                raise AnalysisError(f'R-C01-DRIVER: an iteration of the field loop in {fn.qualname} ends without the codec call and without `continue`')
+                            rows[(opt, cond, ctrl, present)] = False if r[0] in ('continue', 'break') else r[0]
+                        except Reach:
+                            rows[(opt, cond, ctrl, present)] = True
+                        ck.extra.setdefault('driver_helpers_followed', set()).update(d_.followed)
         return rows
-
-    def abstract_run(fn, reader, opt, cond, ctrl, present):
-        def is_controlling(e: ast.AST) -> bool:
-            """the value of the field named by metadata['if_true'|'if_false']: field_map[..metadata[..]] on the reader side, a local
-            bound to getattr(obj, ..metadata[..]) (possibly wrapped in bool()) on the writer side"""
-            if isinstance(e, ast.Call) and call_name(e) == 'bool' and len(e.args) == 1:
-                return is_controlling(e.args[0])
-            if isinstance(e, ast.Subscript) and unparse(e.value) in fn.params and mentions_attr(e.slice, 'metadata'):
-                return True
-            if isinstance(e, ast.Call) and call_name(e) == 'getattr' and len(e.args) >= 2 and mentions_attr(e.args[1], 'metadata'):
-                return True
-            if isinstance(e, ast.Name):
-                defs = [n_.value for n_ in walk_local(fn.node) if isinstance(n_, ast.Assign) and any(isinstance(t_, ast.Name) and t_.id == e.id for t_ in n_.targets)]
-                return bool(defs) and all(is_controlling(d_) for d_ in defs)
-            return False
-
-        def truth(e: ast.AST) -> bool:
-            s = unparse(e)
-            if isinstance(e, ast.UnaryOp) and isinstance(e.op, ast.Not):
-                return not truth(e.operand)
-            if isinstance(e, ast.BoolOp):
-                vals = (truth(v) for v in e.values)      # lazily: short-circuit like Python does
-                return all(vals) if isinstance(e.op, ast.And) else any(vals)
-            if isinstance(e, ast.Compare) and isinstance(e.ops[0], ast.NotIn) and 'metadata' in s:
-                return not {'optional': opt, 'if_true': cond == 'if_true', 'if_false': cond == 'if_false'}[const(e.left)]
-            if isinstance(e, ast.Compare) and isinstance(e.ops[0], ast.IsNot) and is_none_const(e.comparators[0]):
-                return present
-            if isinstance(e, ast.Constant):
-                return bool(e.value)
-            if isinstance(e, ast.Compare) and isinstance(e.ops[0], ast.In) and 'metadata' in s:
-                k = const(e.left)
-                return {'optional': opt, 'if_true': cond == 'if_true', 'if_false': cond == 'if_false'}[k]
-            if isinstance(e, ast.Compare) and isinstance(e.ops[0], ast.Is) and is_none_const(e.comparators[0]):
-                return not present
-            if isinstance(e, ast.Compare) and isinstance(e.ops[0], ast.Lt) and any(
-                    isinstance(x_, ast.Call) and call_name(x_) == 'len' and x_.args and unparse(x_.args[0]) in fn.params for x_ in ast.walk(e)):
-                return present          # `pos < len(message)`: unparsed bytes left
-            if is_controlling(e):
-                return ctrl
-            raise AnalysisError(f'R-C01-DRIVER: construct `{s}` in {fn.qualname} is outside the decision-table fragment')
-
-        def run_block(stmts):
-            for st in stmts:
-                if isinstance(st, ast.Expr) and isinstance(st.value, ast.Constant):
-                    continue
-                if isinstance(st, ast.Assign):
-                    continue
-                if isinstance(st, ast.If):
-                    r = run_block(st.body if truth(st.test) else st.orelse)
-                    if r is not None:
-                        return r
-                    continue
-                if isinstance(st, ast.Return):
-                    v = st.value
-                    if reader:
-                        if isinstance(v, ast.Constant):
-                            return bool(v.value)
-                        return truth(v)
-                    if isinstance(v, ast.Constant) and v.value is None:
-                        return False
-                    if isinstance(v, ast.IfExp):
-                        chosen = v.body if truth(v.test) else v.orelse
-                        return not (isinstance(chosen, ast.Constant) and chosen.value is None) and present
-                    if isinstance(v, ast.Name):
-                        return present
-                    raise AnalysisError(f'R-C01-DRIVER: return `{unparse(v)}` not understood')
-                raise AnalysisError(f'R-C01-DRIVER: statement `{unparse(st)[:50]}` not understood')
-            return None
-        return run_block(fn.node.body)
-    W, R = decision(wr, False), decision(rd, True)
+    W, R = decision(wloop_fn, False), decision(rloop_fn, True)
+    ck.extra['driver_helpers_followed'] = sorted(ck.extra.get('driver_helpers_followed', ()))
+    wr = wloop_fn
     bad = []
     for k in W:
         opt, cond, ctrl, present = k
@@ -520,7 +639,7 @@ def run(eng: Engine, ck: Check):
         if W[k] != R[k]:
             bad.append((k, W[k], R[k]))
     ck.ob('R-C01-DRIVER', wr, wr.node, 'for every admitted combination of (optional, if_true/if_false, controlling value, value present) a field is emitted by the '
-          'writer iff it is parsed by the reader (48-row decision tables read off the two if-chains)', not bad,
+          'writer iff it is parsed by the reader (48-row decision tables: both field loops executed abstractly, helpers followed)', not bad,
           f'disagreements (optional, condition, controlling value, present) -> writer emits / reader parses: {bad[:4]}', construct='driver predicates agree')
     ck.extra['driver_table_rows'] = len(W)
 
